@@ -82,6 +82,8 @@ def judge(text, cfg):
     from calmjs.parse.lexers.es5 import Lexer
     tree = parse(text)
     pobf, pplain = printers(cfg)
+    # the printer object is not fresh: an earlier, complete rendering of another program must not influence this one
+    list(pobf(parse('function w(a) { var b = a; return b; }')))
     out = ''.join(f.text for f in pobf(tree))
     plain = ''.join(f.text for f in pplain(parse(text)))
     try:
